@@ -380,7 +380,7 @@ pub fn sweep(args: &Args, mut out: Out) -> usize {
                                             p.idx_mismatch += 1;
                                             bad = focus_idx;
                                         }
-                                        if o == 0 {
+                                        if o == 0 || !focus_idx {
                                             // Debug name of the category, compared as text (the enum is not exported)
                                             let t = h.hand_type();
                                             let name = CATS[ecat as usize - 1];
